@@ -6,6 +6,7 @@ package c18
 
 import (
 	"encoding/json"
+	"fmt"
 	"os"
 	"path/filepath"
 	"sort"
@@ -127,5 +128,57 @@ func TestReplayCases(t *testing.T) {
 		}
 		doc.Case.Gen = "replay:" + filepath.Base(f)
 		replayOne(t, e, &doc.Case, doc.Signature)
+	}
+}
+
+// TestReplayDegenerate: fixed regression cases around the degenerate values of the address type (the zero value
+// of a map field is also a legal source address).  No finding is listed for them: the oracle must simply hold.
+func TestReplayDegenerate(t *testing.T) {
+	e := newEnv(t)
+	z6, o6 := hexb(zeros(16)), hexb(ones(16))
+	b6 := hexb{0x20, 0x01, 0x0d, 0xb8, 0, 0, 0, 0, 0, 0, 0, 0, 0, 0, 0, 1}
+	v4probes := []op{
+		{K: "probe", Frame: v4frame(0, 0, 0, 0, 0)},
+		{K: "probe", Frame: v4frame(0, 255, 255, 255, 255)},
+		{K: "probe", Frame: v4frame(0, 10, 0, 1, 100)},
+		{K: "probe", Frame: v4frame(1, 0, 0, 0, 0)}, // a MAC without any binding
+	}
+	v6probes := []op{
+		{K: "probe", Frame: &frame{Mac: 0, Et: etIPv6, Src: z6, Len: 74, Fill: 2}},
+		{K: "probe", Frame: &frame{Mac: 0, Et: etIPv6, Src: o6, Len: 74, Fill: 2}},
+		{K: "probe", Frame: &frame{Mac: 0, Et: etIPv6, Src: b6, Len: 74, Fill: 2}},
+		{K: "probe", Frame: &frame{Mac: 1, Et: etIPv6, Src: z6, Len: 74, Fill: 2}},
+	}
+	probes := append(append([]op{}, v4probes...), v6probes...)
+	with := func(ops ...op) []op { return append(ops, probes...) }
+	macSets := [][]hexb{replayMacs, {hexb(zeros(6)), replayMacs[1]}, {hexb(ones(6)), hexb(zeros(6))}}
+	for mi, macs := range macSets {
+		cases := []*tcase{
+			// control plane: IPv6-only subscriber, binding cleared, address 0.0.0.0 / :: really bound
+			{Path: "go", Init: modeStrict, Ops: with(op{K: "add6", Mac: 0, IP: b6})},
+			{Path: "go", Init: modeStrict, Ops: with(op{K: "add4", Mac: 0, IP: hexb{10, 0, 1, 100}}, op{K: "add4nil", Mac: 0})},
+			{Path: "go", Init: modeStrict, Ops: with(op{K: "add4", Mac: 0, IP: hexb{10, 0, 1, 100}}, op{K: "add6", Mac: 0, IP: b6}, op{K: "del", Mac: 0})},
+			{Path: "go", Init: modeStrict, Ops: with(op{K: "add4", Mac: 0, IP: hexb{0, 0, 0, 0}})},
+			{Path: "go", Init: modeStrict, Ops: with(op{K: "add4", Mac: 0, IP: hexb{255, 255, 255, 255}, F16: true}, op{K: "add6", Mac: 0, IP: z6})},
+			{Path: "go", Init: modeStrict, Ops: with(op{K: "add6", Mac: 0, IP: o6})},
+			{Path: "go", Init: modeStrict, Ops: with()}, // nothing bound at all, strict default
+			{Path: "go", Init: modeLoose, Ops: with(op{K: "add4", Mac: 0, IP: hexb{0, 0, 0, 0}})},
+			{Path: "go", Init: modeLoose, Ops: with(op{K: "range", IP: hexb{0, 0, 0, 0}, Plen: 32}, op{K: "range", IP: hexb{255, 255, 255, 255}, Plen: 32})},
+			// C layout: valid flag clear over a non-zero address field, valid flag set over an all-zero one
+			{Path: "raw", Raw: &rawState{DefMode: modeDisabled, Log: 1, Bind: &rawBind{Mac: 0, Addr4: hexb{10, 0, 1, 100}, Addr6: b6, V4: 0, V6: 0, Mode: modeStrict}}, Ops: probes},
+			{Path: "raw", Raw: &rawState{DefMode: modeDisabled, Log: 0, Bind: &rawBind{Mac: 0, Addr4: hexb{0, 0, 0, 0}, Addr6: z6, V4: 1, V6: 1, Mode: modeStrict}}, Ops: probes},
+			{Path: "raw", Raw: &rawState{DefMode: modeStrict, Log: 1, Bind: &rawBind{Mac: 0, Addr4: hexb{0, 0, 0, 0}, Addr6: z6, V4: 0, V6: 0, Mode: modeStrict}}, Ops: probes},
+			{Path: "raw", Raw: &rawState{DefMode: modeStrict, Log: 1, Bind: &rawBind{Mac: 0, Addr4: hexb{255, 255, 255, 255}, Addr6: o6, V4: 1, V6: 1, Mode: modeStrict}}, Ops: probes},
+			{Path: "raw", Raw: &rawState{DefMode: modeStrict, Log: 1}, Ops: probes},
+		}
+		for ci, tc := range cases {
+			tc.Macs = macs
+			tc.Gen = fmt.Sprintf("replay:degenerate-%d-%d", mi, ci)
+			o := runCase(t, e, tc, false)
+			for _, c := range degenerateClasses(tc) {
+				o.class(c)
+			}
+			record(tc, o)
+		}
 	}
 }
